@@ -63,7 +63,7 @@ def run(ctx):
     judge(ctx, CORPUS, "C04 corpus")
     known_srcs = {e["witness"]["main"] for e in core.load_known("C04") if e.get("status") == "open" and e.get("witness", {}).get("kind") == "prog"}
     for fam, fsrcs in families.all_families().items():
-        fsrcs = [x for x in fsrcs if x not in known_srcs]
+        fsrcs = [x for x in fsrcs if not (isinstance(x, str) and x in known_srcs)]
         for i in range(0, len(fsrcs), 1500):
             judge(ctx, fsrcs[i:i + 1500], f"C04 family {fam}")
         ctx.coverage[f"family_{fam}"] = len(fsrcs)
